@@ -5,6 +5,18 @@ NOTES = ("Technique: machine-checked proof in Lean 4 of theorems about a hand-wr
 NOT_APPLICABLE_REASON = {}
 
 CLAIMS = {
+ "C02": {
+  "text": "Lean theorems prove that the map model (a transcription of map.go, map_data_slab.go, map_metadata_slab.go, map_elements_hashkey.go, map_elements_nokey.go, map_element.go: sorted digest tables, inline / external collision groups, last-level lists, split / merge / lend / borrow, routing by first digest, root split and promotion) refines dictionary operations for EVERY digest function, every legal slab size, every number of digest levels: returned values, previous values, removed pairs, count, key-not-found exactly for absent keys, and preserves the map invariant. Tied to the code by replaying every operation of histories with real digests, the pooled digester under genuine collisions and adversarial digest tables, comparing observations, storage effects and structural dumps incl. collision-group slabs.",
+  "design_ref": "DESIGN.md 7/C02, 13",
+  "note": "Trusted: Lean kernel; MapInv.lean / C02.lean statements; correspondence harness. Keys up to the inline key limit; nested containers as values: C10.",
+  "technique": "Lean 4 refinement proof (hash-indexed B+tree with collision groups -> dictionary), induction on digest levels and tree depth + per-operation correspondence",
+ },
+ "C12": {
+  "text": "C02's theorems already hold for arbitrary collisions on any level. Additionally proved: a NEW key whose first-level group already holds more than the limit is refused with the collision-limit error (no new state), updates and inserts with room are accepted, iteration order is the ascending lexicographic digest order with full collisions in insertion order; the shapes of collision groups are part of the invariant. Tie: adversarial digest tables with limits 0..3 and 255 replayed on the model.",
+  "design_ref": "DESIGN.md 7/C12, 13",
+  "note": "Trusted: as C02. The limit is read per run through the verif hook.",
+  "technique": "Lean 4 proof over the collision-group model for all digest assignments + adversarial-digest correspondence",
+ },
  "C06": {
   "text": "Proved in Lean for a byte-exact model of the encoders (elements of every CBOR head width, references, type info, extra data, array data slabs root/non-root, array index slabs, large-value slabs): encoded length = reported size + extra data, minus exactly 16 bytes for an omitted empty sibling link; a decoded slab reports the size of the slab that produced the register; no uint16 truncation under the C05 invariant. The model's bytes are compared with EncodeSlab's bytes for every slab of every generated history. Partial: map slabs, inlined children and the shared extra-data section (the compact-map exception) are not in the byte-level model; for them only the model-free oracle len(Encode)=ByteSize runs.",
   "design_ref": "DESIGN.md 7/C06, 13",
